@@ -82,8 +82,10 @@ outer:
 			continue
 		}
 		var prevStr string
-		for _, str := range values {
-			if str != prevStr {
+		for j, str := range values {
+			// values are sorted, so duplicates are adjacent; an empty string is a
+			// value like any other and must not be mistaken for "same as previous".
+			if j == 0 || str != prevStr {
 				d.keyBuilder.WriteString(str)
 				d.keyBuilder.WriteRune('•')
 				fieldCount += 1
